@@ -106,6 +106,36 @@ def run(ctx):
                              "history": ["%s%r" % (x.name, x.args) for x in steps[2:k]][:12]})
         if i < 2:
             samples.append(["%s%r -> %s" % (x.name, x.args, x.impl[:40]) for x in steps[1:6]])
+    # two Client objects alive in one process, connected to servers that differ: each must keep ITS server's view
+    import msref, refserver
+    for rep in range(20 if ctx.tier == "quick" else 200):
+        confs = [dict(version=True, sasl=b"PLAIN LOGIN", starttls=True), dict(version=False, sasl=b"PLAIN", starttls=False)]
+        r.shuffle(confs)
+        pair = []
+        for conf in confs:
+            srv = refserver.RefServer(r, scripts={b"s": b"keep;\r\n"}, **conf)
+            ses = msref.Session()
+            ses.connect(b"", [], "user", "pw", server=srv)
+            pair.append((ses, srv, conf))
+        order = [0, 1, 0, 1]
+        r.shuffle(order)
+        for idx in order:
+            ses, srv, conf = pair[idx]
+            evals += 1
+            nontriv += 1
+            c = ses.client
+            got = (c.has_tls_support(), sorted(c.get_sasl_mechanisms() or []), c.get_implementation())
+            want = (conf["starttls"], sorted(conf["sasl"].decode().split()), "refserver")
+            if got != want:
+                viol.append({"op": "capabilities", "what": "with two clients alive, a client reports (%r) what is not its own server's announcement (%r)" % (got, want)})
+            nw = len(ses.wire.writes)
+            ses.op("renamescript", "s", "t")
+            verbs = [b.split(b" ", 1)[0].split(b"\r\n", 1)[0].upper() for _, b in ses.wire.writes[nw:]]
+            if conf["version"] and verbs[:1] != [b"RENAMESCRIPT"]:
+                viol.append({"op": "renamescript", "what": "server announces VERSION but the client did not use RENAMESCRIPT (verbs %r) — another client's capabilities?" % verbs})
+            if not conf["version"] and verbs[:1] != [b"LISTSCRIPTS"]:
+                viol.append({"op": "renamescript", "what": "server does not announce VERSION but the client did not emulate the rename (verbs %r)" % verbs})
+            ses.op("renamescript", "t", "s")
     diffs = corr_client.compare(sessions)
     seen, uv = set(), []
     for v in viol:
